@@ -1101,4 +1101,92 @@ theorem getByKey_of_mem {s : Net} (h : Coherent s) {p : Peer} (hp : p ∈ s.g.ve
     rw [hr] at this
     rw [same_of_key h.keysNodup this.1 hp this.2]
 
+/-! ### address blacklist -/
+
+theorem addMissing_akeys (all : List (Addr × WAddr)) (l : List Addr) (a : Addr) :
+    a ∈ akeys (addMissing all l) ↔ a ∈ akeys all ∨ a ∈ l := by
+  induction l generalizing all with
+  | nil => simp [addMissing]
+  | cons x t ih =>
+    simp only [addMissing, ih, List.mem_cons]
+    split
+    · rename_i hx
+      have : x ∈ akeys all := aget_isSome_iff.1 hx
+      constructor
+      · rintro (h | h)
+        · exact Or.inl h
+        · exact Or.inr (Or.inr h)
+      · rintro (h | rfl | h)
+        · exact Or.inl h
+        · exact Or.inl this
+        · exact Or.inr h
+    · rw [mem_akeys_aset]; tauto
+
+theorem addVerified_blAddr (g : Graph) (p : Peer) : (g.addVerified p).blAddr = g.blAddr := by
+  unfold Graph.addVerified
+  split; · rfl
+  split; · rfl
+  split; · rfl
+  split <;> rfl
+
+theorem addVerified_unknown (g : Graph) (p : Peer) (a : Addr) (hb : a ∈ g.blAddr) (hk : a ∉ akeys g.allAddr) :
+    a ∉ akeys (g.addVerified p).allAddr := by
+  unfold Graph.addVerified
+  split; · exact hk
+  split; · exact hk
+  split; · exact hk
+  split
+  · rename_i hall
+    simp only [List.all_eq_true, Bool.not_eq_true', decide_eq_false_iff_not] at hall
+    show a ∉ akeys (addMissing g.allAddr p.addrList)
+    rw [addMissing_akeys]
+    rintro (h | h)
+    · exact hk h
+    · exact hall a h hb
+  · exact hk
+
+theorem step_blAddr (g : Graph) (op : Op) (a : Addr) (hl : op.isLoad = false) (hb : a ∈ g.blAddr)
+    (hk : a ∉ akeys g.allAddr) : a ∈ (g.step op).blAddr ∧ a ∉ akeys (g.step op).allAddr := by
+  cases op with
+  | add p => exact ⟨by rw [Graph.step, addVerified_blAddr]; exact hb, addVerified_unknown g p a hb hk⟩
+  | disc p x svc ns =>
+    simp only [Graph.step, Graph.discoverAddress]
+    split
+    · exact ⟨by rw [addVerified_blAddr]; exact hb, addVerified_unknown g p a hb hk⟩
+    · rename_i hx
+      split
+      · refine ⟨by rw [addVerified_blAddr]; exact hb, addVerified_unknown _ p a hb ?_⟩
+        show a ∉ akeys (aset x _ g.allAddr)
+        rw [mem_akeys_aset]
+        rintro (h | h)
+        · exact hk h
+        · exact hx (h ▸ hb)
+      · exact ⟨by rw [addVerified_blAddr]; exact hb, addVerified_unknown g p a hb hk⟩
+  | svcs p l => exact ⟨hb, hk⟩
+  | rmPeer p =>
+    refine ⟨hb, fun h => hk ?_⟩
+    simp only [Graph.step, Graph.removePeer, akeys, List.mem_map, List.mem_filter] at h ⊢
+    obtain ⟨e, ⟨he, _⟩, rfl⟩ := h; exact ⟨e, he, rfl⟩
+  | rmAddr x =>
+    refine ⟨hb, fun h => hk ?_⟩
+    simp only [Graph.step, Graph.removeByAddress, adel, akeys, List.mem_map, List.mem_filter] at h ⊢
+    obtain ⟨e, ⟨he, _⟩, rfl⟩ := h; exact ⟨e, he, rfl⟩
+  | blAddr x => exact ⟨by simp [Graph.step, hb], hk⟩
+  | blMid k' => exact ⟨hb, hk⟩
+  | load d => simp [Op.isLoad] at hl
+  | qAddr x hint => exact ⟨hb, hk⟩
+  | qKey k => exact ⟨hb, hk⟩
+  | qSvc sv => exact ⟨hb, hk⟩
+  | qWalk svc o => exact ⟨hb, hk⟩
+  | qIntro k => exact ⟨hb, hk⟩
+
+theorem run_blAddr (g : Graph) (ops : List Op) (a : Addr) (hl : ∀ op ∈ ops, op.isLoad = false) (hb : a ∈ g.blAddr)
+    (hk : a ∉ akeys g.allAddr) : a ∉ akeys (g.run ops).allAddr := by
+  induction ops generalizing g with
+  | nil => exact hk
+  | cons op t ih =>
+    have := step_blAddr g op a (hl op (List.mem_cons_self ..)) hb hk
+    exact ih (g.step op) (fun o ho => hl o (List.mem_cons_of_mem _ ho)) this.1 this.2
+
+
 end Ipv8.C12
